@@ -162,3 +162,170 @@ def c01_family(tier, n):
             out.append(scn(f'rejoin2+side{side}/{b1}', rejoin(n, 2, [b1, 'pass'], ['b1', 'b2;main>other'], side=side)))
 
     return out
+
+
+# ---- C03 family (all consumers synchronized and required; TIMELY profile) ----------------------------------------------
+
+def max_slow(s):
+    m = 0
+
+    for f in s['filters']:
+        m = max(m, f.get('period', 0) or 0, f.get('start_at', 0) or 0)
+
+        for op in f.get('ops', ()):
+            if op[0] == 'slow':
+                m = max(m, op[1])
+            elif op[0] == 'slow_at':
+                m = max(m, *op[1].values())
+
+    return max([m] + list((s.get('join_delay') or {}).values()))
+
+
+def timely(s, quiet=450, horizon=30_000):
+    s['profile']    = 'TIMELY'
+    s['timely_ms']  = 100
+    s['quiet_ms']   = quiet + max_slow(s)
+    s['horizon_ms'] = horizon
+
+    return s
+
+
+def chain(n, behs, sub='{up}', period=0, src_topics=None, src_ops=None, starts=None):
+    """src -> f1 -> ... -> fk (last one is the sink)."""
+
+    names = [f'f{i + 1}' for i in range(len(behs))]
+    fs    = [src(n, required=names[0], period=period, topics=src_topics, **({'ops': src_ops} if src_ops else {}))]
+    up    = 'src'
+
+    for i, (nm, beh) in enumerate(zip(names, behs)):
+        last = i == len(names) - 1
+        s    = sub.format(up=up) if last else up
+        fs.append(sink(nm, [s], beh) if last else relay(nm, [s], beh, required=names[i + 1]))
+        up = nm
+
+    for f, st in zip(fs, starts or ()):
+        if st:
+            f['start_at'] = st
+
+    return fs
+
+
+def c03_family(tier, n):
+    out  = []
+    full = tier == 'thorough'
+    behs = ['pass', 'skip1', 'skip02', 'slow30', 'slow150', 'add', 'empty1', [('rename', 'main', 'm2')], [('lone',)], [('callable',)],
+            [('empty',)], [('slow', 1200)] if full else [('slow', 400)]]
+    bname = lambda b: b if isinstance(b, str) else '+'.join(str(x) for op in b for x in op)
+
+    # chains of 2..4 filters: every behaviour in the middle, subscription forms at the sink
+    for b in behs:
+        nn = 3 if b in ([('slow', 1200)], [('slow', 400)]) else n
+        out.append(timely(scn(f'chain3/{bname(b)}', chain(nn, [b, 'pass']))))
+        out.append(timely(scn(f'chain3s/{bname(b)}', chain(nn, ['pass', b]))))
+
+    for sub in ['{up};main', '{up};main>other', '{up};*', '{up};aux>x;main']:
+        out.append(timely(scn(f'chain3sub/{sub}', chain(n, ['pass', 'pass'], sub=sub, src_topics=['main', 'aux']))))
+
+    out.append(timely(scn('chain2/callable-src', chain(n, ['pass'], src_ops=[('callable',)]))))
+    out.append(timely(scn('chain2/empty-src', chain(n, ['pass'], src_ops=[('empty_at', [1])]))))
+    out.append(timely(scn('chain4/pass', chain(n, ['pass', 'slow30', 'pass']))))
+    out.append(timely(scn('chain4/skip-slow', chain(n, ['skip1', 'slow150', 'pass']))))
+    out.append(timely(scn('chain5/mixed', chain(n, ['pass', 'skip02', 'add', 'pass']))))
+
+    for p in ([0, 30, 150] if full else [30]):
+        out.append(timely(scn(f'chain3/paced{p}', chain(n, ['pass', 'pass'], period=p))))
+
+    # start-up order and late joiners
+    for starts in [(0, 50, 0), (50, 0, 0), (0, 0, 50), (120, 0, 60)] + ([(0, 250, 0), (300, 0, 0)] if full else []):
+        out.append(timely(scn(f'chain3start/{starts}', chain(n, ['pass', 'pass'], starts=starts))))
+
+    for jd in [{'f1<src': 50}, {'f2<f1': 50}, {'f1<src': 50, 'f2<f1': 150}]:
+        out.append(timely(scn(f'chain3join/{sorted(jd.items())}', chain(n, ['pass', 'pass']), join_delay=jd)))
+
+    # tee: two sinks on one source
+    for b1, b2 in [('pass', 'pass'), ('slow30', 'pass'), ('slow150', 'skip1'), ('skip1', 'slow30')]:
+        out.append(timely(scn(f'tee/{b1}/{b2}', [src(n, required='a,b'), sink('a', ['src'], b1), sink('b', ['src;main>x'], b2)])))
+
+    # tee-rejoin without skipping branches (the property excludes skipping on rejoined paths)
+    for b1, b2 in [('pass', 'pass'), ('slow30', 'pass'), ('pass', 'slow150'), ('add', 'slow30'), ('slow150', 'slow30')]:
+        out.append(timely(scn(f'rejoin2/{b1}/{b2}', rejoin(n, 2, [b1, b2], ['b1', 'b2;main>other']))))
+
+    out.append(timely(scn('rejoin3/mixed', rejoin(n, 3, ['pass', 'slow30', 'add'], ['b1;main', 'b2;main>other', 'b3;extra>third']))))
+
+    # rejoin followed by a skipping filter (skip is allowed after the rejoin)
+    fs = rejoin(n, 2, ['pass', 'slow30'], ['b1', 'b2;main>other'])
+    fs[-1] = relay('snk', ['b1', 'b2;main>other'], 'skip1', required='end')
+    fs.append(sink('end', ['snk']))
+    out.append(timely(scn('rejoin2+skip-after', fs)))
+
+    # join of independent sources
+    for p1, p2 in [(0, 0), (0, 30), (150, 0)]:
+        out.append(timely(scn(f'join2/{p1}/{p2}', [src(n, 's1', period=p1, required='snk'), src(n, 's2', period=p2, required='snk', topics=['main', 'aux']),
+                                                   sink('snk', ['s1', 's2;main>other;aux'])])))
+
+    return out
+
+
+# ---- C02 families ---------------------------------------------------------------------------------------------------------
+
+def with_faults(s, kinds, victims, delays, when='any', budget=1, conn_timeout=1000, horizon=None):
+    s = dict(s)
+    s['faults'] = {'kinds': kinds, 'victims': victims, 'restart_delays': delays, 'budget': budget, 'when': when}
+    s['conn_timeout'] = conn_timeout
+    s['quiet_ms'] = conn_timeout + 900 + max([d for d in delays if d] + [0])
+
+    if horizon:
+        s['horizon_ms'] = horizon
+
+    return s
+
+
+def c02_order_family(tier, n):
+    """C01's family (arbitrary delays) plus restarts of publisher / relay / consumer."""
+
+    full = tier == 'thorough'
+    base = [s for s in c01_family(tier, n) if s['name'].split('/')[0] in ('chain3', 'rejoin2', 'tee', 'join2')]
+
+    if not full:
+        keep = ('chain3/pass/mid', 'chain3/skip1/mid', 'chain3/slow30/mid;main>other', 'rejoin2/pass/pass/b1|b2;main>other',
+                'rejoin2/skip1/pass/b1|b2;main>other', 'rejoin2/pass/skip1/b1|b2;main>other', 'rejoin2/slow30/skip1/b1|b2;main>other',
+                'tee/pass/skip1', 'tee/slow30/pass', 'join2/0/30/s1|s2;main>other')
+        base = [s for s in base if s['name'] in keep]
+
+    return base
+
+
+def c02_restart_family(tier):
+    full   = tier == 'thorough'
+    out    = []
+    delays = [0, 300, 1200] if full else [0, 1200]
+    when   = 'any' if full else 'next'
+    n      = 10
+
+    ch = lambda: [src(n, required=None, period=60), relay('mid', ['src']), sink('snk', ['mid'])]
+
+    for victim in ['src', 'mid', 'snk']:
+        out.append(with_faults(scn(f'restart-chain3/{victim}', ch()), ['kill'], [victim], delays, when))
+
+    rj = lambda: rejoin(n, 2, ['pass', 'pass'], ['b1', 'b2;main>other'], required=False, period=60)
+
+    for victim in ['src', 'b1', 'snk'] if full else ['b1']:
+        out.append(with_faults(scn(f'restart-rejoin2/{victim}', rj()), ['kill'], [victim], delays, when))
+
+    return out
+
+
+def c02_content_family(tier):
+    out    = []
+    tsets  = [['main'], ['a'], ['_h'], ['main', 'a'], ['main', '_h'], ['a', '_h'], ['main', 'a', '_h']]
+    subs   = ['src', 'src;', 'src;a', 'src;a>b', 'src;>b', 'src;_h', 'src;*', 'src;a;_h>x']
+    n      = 6
+
+    for ts in tsets:
+        for sub in subs:
+            s = timely(scn(f'content/{"+".join(ts)}/{sub}', [
+                {**src(n, required='snk', topics=ts), 'payload': {'rotate': True}},
+                {**sink('snk', [sub]), 'log_content': True}]))
+            out.append(s)
+
+    return out
